@@ -104,7 +104,10 @@ def strata(pid, t, rnd):
                 tq = rnd.choice(REQS)
                 c, bgc = pairs.near_threshold(rnd, tq, (-0.3, 0.3))
                 txt = pairs.translucent_over(c, bgc, rnd)
-                add(txt if txt is not None else c, bgc, large, "rgbafn" if isinstance(txt, str) else "rgbatuple" if txt is not None else "tuple")
+                label = "tuple" if txt is None else "rgbatuple" if not isinstance(txt, str) else "rgbafn" if txt.startswith("rgba(") else "informal"
+                add(txt if txt is not None else c, bgc, large, label)
+                if txt is not None:
+                    specs[-1]["comp"] = dict(pairs.LAST_COMP[0])      # the pair must be the composite over ITS OWN background
             elif name in ("witness_neargrey", "witness_translucent"):
                 vr = bool(rnd.getrandbits(1))
                 tq = pairs.REQ[(large, vr)]
@@ -126,7 +129,8 @@ def strata(pid, t, rnd):
                         c, bgc = pairs.near_threshold(rnd, tq, (0.0, 0.07))
                         txt = pairs.translucent_over(c, bgc, rnd)
                         if txt is not None and bgc != (255, 255, 255):
-                            add(txt, bgc, large, "rgbafn", witness=True, runs=[(m, v2) for v2 in (True, False) for m in (0, 1, 2)])
+                            add(txt, bgc, large, "informal", witness=True, runs=[(m, v2) for v2 in (True, False) for m in (0, 1, 2)])
+                            specs[-1]["comp"] = dict(pairs.LAST_COMP[0])
                             break
             elif name == "edge":
                 a, b = pairs.edge_near_threshold(rnd, rnd.choice(REQS))
@@ -164,7 +168,8 @@ def strata(pid, t, rnd):
     return specs
 
 
-PREFIX = {"C01": ("C01_",), "C02": ("C02_",), "C03": ("C03_",), "C04": ("C04_",), "C16": ("C16_",)}
+# C02's first clause speaks of the original colour "after compositing any transparency": a wrong composite breaks it
+PREFIX = {"C01": ("C01_",), "C02": ("C02_", "C13_CompositeOverOwnBackground"), "C03": ("C03_",), "C04": ("C04_",), "C16": ("C16_",)}
 
 
 def classify(rep, pid, specs, behaviours, agg, finding_of=None):
